@@ -775,6 +775,8 @@ impl<'a> Parser<'a> {
             self.parse_re(ix, depth)?
         };
         next = self.check_for_close_paren(next)?;
+        // ignorable text is not a branch: `(?(1) )` in `(?x)` mode and `(?(1)(?#comment))` are the bare group test `(?(1))`
+        next = self.optional_whitespace(next)?;
         // the truth branch is the first alternative; whatever follows a top-level `|` is the false branch
         // (an alternation inside a group, `(?(1)(?:b|c))`, is one branch)
         let (end, if_true) = self.parse_branch(next, depth)?;
